@@ -68,60 +68,61 @@ def run(ctx):
                                 ok = True
             res.check(ok, "E-FIXED", f, norm(s), p + ":store", f"self.{p} is assigned on a path where `{flag}` may be True: a `{p}` supplied at construction is changed by fit()", loc(fi, s))
     # ---- closure: nobody else stores to self.u / self.w or mutates aliases in place
-    clo = [g for g in R.closure(ctx, fi) if g.qualname != fi.qualname and g.name not in ("_init_w", "_init_u", "__init__", "_check_and_infer_param_consistency")]
-    names = []
-    for g in clo:
-        gv = ctx.view(g)
-        alias = set()
-        for n in walk_no_nested(g.node):
-            if isinstance(n, ast.Assign):
-                tg, val = n.targets[0], n.value
-                if isinstance(tg, ast.Tuple) and isinstance(val, ast.Tuple):
-                    for a, b in zip(tg.elts, val.elts):
-                        if isinstance(a, ast.Name) and any(is_self_attr(b, p) for p in PARAMS):
-                            alias.add(a.id)
-                elif isinstance(tg, ast.Name) and any(is_self_attr(val, p) for p in PARAMS):
-                    alias.add(tg.id)
-        bad = []
-        for n in walk_no_nested(g.node):
-            if isinstance(n, (ast.Assign, ast.AugAssign)):
-                for t in (n.targets if isinstance(n, ast.Assign) else [n.target]):
-                    base = t.value if isinstance(t, ast.Subscript) else t
-                    if any(is_self_attr(base, p) for p in PARAMS):
-                        bad.append((n, "store to " + norm(base)))
-                    if isinstance(n, ast.AugAssign) and isinstance(t, ast.Name) and t.id in alias:
-                        bad.append((n, f"in-place update of `{t.id}`, an alias of the model parameter"))
-                    if isinstance(t, ast.Subscript) and isinstance(t.value, ast.Name) and t.value.id in alias:
-                        bad.append((n, f"element store into `{t.value.id}`, an alias of the model parameter"))
-            if isinstance(n, ast.Call):
-                for kw in n.keywords:
-                    if kw.arg == "out" and (any(is_self_attr(kw.value, p) for p in PARAMS) or (isinstance(kw.value, ast.Name) and kw.value.id in alias)):
-                        bad.append((n, "out= writes into the model parameter"))
-        # helpers of the EM loop are pure functions of (u, w, data): an in-place update of an array that was not
-        # created in the helper itself (a parameter, or something a self-method handed back) corrupts what the caller shares
-        if g.module.name.startswith("hypergraphx.communities.hy_mmsbm"):
-            pnames = {a.arg for a in g.params} - {"self"}
-            from_calls = set()
+    with res.guard("closure: nobody else stores to self.u / self.w or mutates aliases in place"):
+        clo = [g for g in R.closure(ctx, fi) if g.qualname != fi.qualname and g.name not in ("_init_w", "_init_u", "__init__", "_check_and_infer_param_consistency")]
+        names = []
+        for g in clo:
+            gv = ctx.view(g)
+            alias = set()
             for n in walk_no_nested(g.node):
-                if isinstance(n, ast.Assign) and isinstance(n.value, ast.Call) and isinstance(n.value.func, ast.Attribute) and is_self_attr(n.value.func):
-                    for t in n.targets:
-                        for x in ast.walk(t):
-                            if isinstance(x, ast.Name):
-                                from_calls.add(x.id)
+                if isinstance(n, ast.Assign):
+                    tg, val = n.targets[0], n.value
+                    if isinstance(tg, ast.Tuple) and isinstance(val, ast.Tuple):
+                        for a, b in zip(tg.elts, val.elts):
+                            if isinstance(a, ast.Name) and any(is_self_attr(b, p) for p in PARAMS):
+                                alias.add(a.id)
+                    elif isinstance(tg, ast.Name) and any(is_self_attr(val, p) for p in PARAMS):
+                        alias.add(tg.id)
+            bad = []
             for n in walk_no_nested(g.node):
-                if isinstance(n, ast.AugAssign) and isinstance(n.target, (ast.Name, ast.Subscript)):
-                    base = n.target.value if isinstance(n.target, ast.Subscript) else n.target
-                    if isinstance(base, ast.Name) and base.id in (pnames | from_calls):
-                        bad.append((n, f"in-place update of `{base.id}`, which the caller (or another EM iteration) shares"))
-                if isinstance(n, ast.Assign) and isinstance(n.targets[0], ast.Subscript) and isinstance(n.targets[0].value, ast.Name) and n.targets[0].value.id in pnames:
-                    bad.append((n, f"element store into the parameter `{n.targets[0].value.id}`"))
-        names.append(g.short)
-        if bad:
-            for n, why in bad:
-                res.violation("E-NOINPLACE", g.short, norm(n), "closure-of-fit", f"{why}: reachable from fit(), so a supplied parameter can be changed", loc(g, n))
-        else:
-            res.ok("E-NOINPLACE", g.short, "no store / in-place update of self.u, self.w", "closure-of-fit", loc(g, g.node))
-    res.notes.append("closure of fit(): " + ", ".join(sorted(names)))
+                if isinstance(n, (ast.Assign, ast.AugAssign)):
+                    for t in (n.targets if isinstance(n, ast.Assign) else [n.target]):
+                        base = t.value if isinstance(t, ast.Subscript) else t
+                        if any(is_self_attr(base, p) for p in PARAMS):
+                            bad.append((n, "store to " + norm(base)))
+                        if isinstance(n, ast.AugAssign) and isinstance(t, ast.Name) and t.id in alias:
+                            bad.append((n, f"in-place update of `{t.id}`, an alias of the model parameter"))
+                        if isinstance(t, ast.Subscript) and isinstance(t.value, ast.Name) and t.value.id in alias:
+                            bad.append((n, f"element store into `{t.value.id}`, an alias of the model parameter"))
+                if isinstance(n, ast.Call):
+                    for kw in n.keywords:
+                        if kw.arg == "out" and (any(is_self_attr(kw.value, p) for p in PARAMS) or (isinstance(kw.value, ast.Name) and kw.value.id in alias)):
+                            bad.append((n, "out= writes into the model parameter"))
+            # helpers of the EM loop are pure functions of (u, w, data): an in-place update of an array that was not
+            # created in the helper itself (a parameter, or something a self-method handed back) corrupts what the caller shares
+            if g.module.name.startswith("hypergraphx.communities.hy_mmsbm"):
+                pnames = {a.arg for a in g.params} - {"self"}
+                from_calls = set()
+                for n in walk_no_nested(g.node):
+                    if isinstance(n, ast.Assign) and isinstance(n.value, ast.Call) and isinstance(n.value.func, ast.Attribute) and is_self_attr(n.value.func):
+                        for t in n.targets:
+                            for x in ast.walk(t):
+                                if isinstance(x, ast.Name):
+                                    from_calls.add(x.id)
+                for n in walk_no_nested(g.node):
+                    if isinstance(n, ast.AugAssign) and isinstance(n.target, (ast.Name, ast.Subscript)):
+                        base = n.target.value if isinstance(n.target, ast.Subscript) else n.target
+                        if isinstance(base, ast.Name) and base.id in (pnames | from_calls):
+                            bad.append((n, f"in-place update of `{base.id}`, which the caller (or another EM iteration) shares"))
+                    if isinstance(n, ast.Assign) and isinstance(n.targets[0], ast.Subscript) and isinstance(n.targets[0].value, ast.Name) and n.targets[0].value.id in pnames:
+                        bad.append((n, f"element store into the parameter `{n.targets[0].value.id}`"))
+            names.append(g.short)
+            if bad:
+                for n, why in bad:
+                    res.violation("E-NOINPLACE", g.short, norm(n), "closure-of-fit", f"{why}: reachable from fit(), so a supplied parameter can be changed", loc(g, n))
+            else:
+                res.ok("E-NOINPLACE", g.short, "no store / in-place update of self.u, self.w", "closure-of-fit", loc(g, g.node))
+        res.notes.append("closure of fit(): " + ", ".join(sorted(names)))
     res.discovery["max_hye_size_inference"] = "HyMMSBM.fit infers max_hye_size as max(len(hye) for hye in hypergraph); iterating a Hypergraph yields (edge, id) items, so the value is always 2 (K-LEN: len() of a (nodes, id) pair). Outside the clauses claimed for C15; not repaired."
     res.assumptions += ["numpy arithmetic `a / b`, `a * b` allocates a new array (only augmented assignment, element stores and out= are in-place)"]
     return res
